@@ -466,6 +466,39 @@ func genC09(cw *caseWriter, seed uint64, tier string) {
 			}
 		}
 	}
+	// … the same column after it took over another declaration: a column of a WIDE integer type imports a
+	// jsonline.Value declared with a NARROW one (and the other way round), then the texts — the bounds that count are
+	// those of the declaration the cell holds now
+	intTys := []string{"int", "i64", "i32", "i16", "i8", "uint", "u64", "u32", "u16", "u8"}
+	for i, ty := range intTys {
+		for j, ty2 := range intTys {
+			if ty == ty2 || (i+j)%3 != 0 {
+				continue
+			}
+			f, f2 := pick(r, []string{"numeric", "string", "auto"}), pick(r, []string{"numeric", "string", "auto", "timestamp"})
+			for _, txt := range []string{"7", "127", "128", "-129", "255", "256", "300", "32768", "65536", "2147483648", "-1", "4294967296", "9223372036854775808", "18446744073709551616"} {
+				emitImpAfterValue(cw, "C09", f, ty, f2, ty2, nil, json.Number(txt))
+				emitImpAfterValue(cw, "C09", f, ty, f2, ty2, 1, txt)
+			}
+		}
+	}
+	// column level, numbers carried by Go floats (handed through the API: Value.Import, ImportAtKey): around 2^24 and
+	// 2^53 (where the float types stop holding every integer), at the bounds of every width, non-integral, non-finite
+	var fl []interface{}
+	for _, e := range []int{7, 8, 15, 16, 24, 31, 32, 53, 63, 64} {
+		p := math.Ldexp(1, e)
+		fl = append(fl, float32(p), float32(-p), float64(p), float64(-p), float64(p-1), float64(p+2), float32(p+2), math.Nextafter32(float32(p), 0), math.Nextafter(p, 0), math.Nextafter(p, math.Inf(1)))
+	}
+	fl = append(fl, float32(123456792), float32(16777218), float32(1.5), float64(-0.5), float32(3.4e38), math.NaN(), float32(math.NaN()), math.Inf(1), float32(math.Inf(-1)), float64(0), float32(0))
+	for _, f := range []string{"numeric", "string", "auto", "timestamp", "boolean", "binary"} {
+		for _, ty := range intTys {
+			for k, v := range fl {
+				if (k+len(f)+len(ty))%2 == 0 || tier == "thorough" {
+					emitImpFor(cw, "C09", f, ty, v)
+				}
+			}
+		}
+	}
 	// uniformly random
 	n := 3000
 	if tier == "thorough" {
